@@ -1,16 +1,80 @@
 /-
-  Driver for C08.  Request:
+  Driver for C08.  Requests:
 
     doc <J>   → `ok <hex canonical bytes>` | `err` | `undef`
 
+    edit <op> <n> <step>×n <args…> <J doc>
+              → `ok <p> <c> <hex canonical bytes of the edited document>`
+                | `nopath` | `err` | `undef` | `bad-args`
+      a step is `k <hexkey>` (into that member) or `x <index>` (into that element); the edit is
+      applied by `Spec.C08.applyOp` (the functions of Model/JsonEdit.lean) at the end of the path:
+        set <J v'>               the value replaced by v'                         (J.set)
+        ins <pos> <hexkey> <J v> the object gets the member key : v before pos    (KL.insertAt)
+        del <hexkey>             the object loses its member key                  (KL.erase)
+        swap <i> <j>             the array's elements i and j are exchanged       (JL.swap)
+      p = the oracle's verdict (1 = the content changes; proved right: `edit_verdict_sound`): set — the new value has
+          another content (`edit_at_path_content_iff`); ins — the value is not null
+          (`add_member_content_iff`); del — the value was not null (`remove_member_content_iff`);
+          swap — the two elements have different contents (`swap_elements_content_iff`);
+      c = whether the canonical bytes of the edited document differ from those of the document
+          (1 = they differ).  `nopath`: the path (or member, or element) does not exist.
+
   The harness applies real SHA-256 to the bytes (the model's abstract `Hash.H`)
-  and compares with gobl's Envelope.Digest; whether two documents have the
+  and compares with gobl's Envelope.Digest / dsig.NewSHA256Digest; whether two documents have the
   same content is decided by comparing the canonical bytes (C07.canon_injective).
 -/
 import Driver.C07
+import GoblVerif.Spec.C08
 
 namespace Driver.C08
-open GoblVerif GoblVerif.C14n Driver
+open GoblVerif GoblVerif.C14n GoblVerif.Edit GoblVerif.Spec.C08 Driver
+
+def parsePath : Nat → List String → Option (Path × List String)
+  | 0, r => some ([], r)
+  | n + 1, "k" :: h :: r =>
+    match Driver.C07.strOfHex h, parsePath n r with
+    | some k, some (p, r') => some (.key k :: p, r')
+    | _, _ => none
+  | n + 1, "x" :: i :: r =>
+    match parseNat? i, parsePath n r with
+    | some i, some (p, r') => some (.idx i :: p, r')
+    | _, _ => none
+  | _, _ => none
+
+def answer (d : J) (r : Option (J × Bool)) : String :=
+  match r with
+  | none => "nopath"
+  | some (d', predicted) =>
+    if !d.wf || !d'.wf then "undef" else
+    match canon d, canon d' with
+    | some b, some b' => s!"ok {if predicted then 1 else 0} {if b == b' then 0 else 1} {hexBytes b'}"
+    | _, _ => "err"
+
+def handleEdit (op : String) (p : Path) (r : List String) : String :=
+  match op, r with
+  | "set", r =>
+    match Driver.C07.parseJ r with
+    | some (v', r') =>
+      match Driver.C07.parseJ r' with
+      | some (d, []) => answer d (applyOp (.set v') p d)
+      | _ => "bad-args"
+    | none => "bad-args"
+  | "ins", n :: h :: r =>
+    match parseNat? n, Driver.C07.strOfHex h, Driver.C07.parseJ r with
+    | some n, some k, some (v, r') =>
+      match Driver.C07.parseJ r' with
+      | some (d, []) => answer d (applyOp (.ins n k v) p d)
+      | _ => "bad-args"
+    | _, _, _ => "bad-args"
+  | "del", h :: r =>
+    match Driver.C07.strOfHex h, Driver.C07.parseJ r with
+    | some k, some (d, []) => answer d (applyOp (.del k) p d)
+    | _, _ => "bad-args"
+  | "swap", i :: j :: r =>
+    match parseNat? i, parseNat? j, Driver.C07.parseJ r with
+    | some i, some j, some (d, []) => answer d (applyOp (.swap i j) p d)
+    | _, _, _ => "bad-args"
+  | _, _ => "bad-op"
 
 def handle (toks : List String) : String :=
   match toks with
@@ -22,6 +86,13 @@ def handle (toks : List String) : String :=
       | some b => s!"ok {hexBytes b}"
       | none => "err"
     | _ => "bad-args"
+  | "edit" :: op :: n :: r =>
+    match parseNat? n with
+    | some n =>
+      match parsePath n r with
+      | some (p, r') => handleEdit op p r'
+      | none => "bad-args"
+    | none => "bad-args"
   | _ => "bad-op"
 
 end Driver.C08
